@@ -9,7 +9,7 @@ TECHNIQUE = "deviation-bounded exhaustive enumeration of constructor argument tu
 RULE = ("42 command classes x every opcode-table entry under which a command set offers the command x all argument tuples that "
         "deviate from the baseline (required arguments 0, optional arguments omitted) in at most k dimensions (k=2 quick, 3 thorough); "
         "a dimension is one multi-bit argument ranging over its whole alphabet (all values up to 4 bits, else 0/1/max/max-1/every "
-        "2^i/every max-2^i/A5../5A..) or the full product of all 1-bit arguments (each omitted/0/1); tuples with at most one deviation are also passed positionally (signature order) and as int-subclass instances (bool for 0/1) and must give the same CDB; READ CD / READ / WRITE (10,12) also with the negative lead-in LBAs -1, -150, -45150, -2^31 (two's complement or refusal). Non-trivial = at least one "
+        "2^i/every max-2^i/A5../5A..) or the full product of all 1-bit arguments (each omitted/0/1); tuples with at most one deviation are also passed positionally (signature order) and as int-subclass instances (bool for 0/1) and must give the same CDB; READ CD / READ / WRITE (10,12) also with the negative lead-in LBAs -1, -150, -45150, -2^31 (two's complement or refusal); the first command of every (class, table) partition is shown with print_cdb() / print() / repr() before the rest is built. Non-trivial = at least one "
         "deviation; distinct = distinct (class, table, tuple).")
 ASSUMPTIONS = [
     "oracle: vf/spec/cdb.py (Appendix A of DESIGN.md), whole-CDB comparison with the spec encoder: length, opcode, service action, every field, every other bit zero",
@@ -220,6 +220,7 @@ def run_partition(part, tier, seed):
         # still one evaluation so the partition is visible
         return acc
     prev = None
+    api_done = False
     if not wide:
         # first use of this class (and of its operation code) in this process is marshall_cdb/unmarshall_cdb on a dictionary, *before*
         # any constructor has run: whatever that leaves behind must not show in the CDBs built afterwards
@@ -256,6 +257,22 @@ def run_partition(part, tier, seed):
             v.append(("earlier_command_changed/%s" % name, "%s(%r): building it changed the CDB of the %s built before it (%s -> %s)"
                       % (name, point, name, prev[1].hex(), bytes(prev[0].cdb).hex())))
         prev = (obs[1], obs[0]) if len(obs) > 1 else None
+        if prev is not None and not wide and not api_done:
+            # the display helpers of a command (print_cdb, repr, str, print) are pure observers: used once here, on the first command
+            # of the partition - every CDB built afterwards is still compared with the spec encoder
+            api_done = True
+            import contextlib
+            import io
+            try:
+                with contextlib.redirect_stdout(io.StringIO()):
+                    prev[0].print_cdb()
+                    print(prev[0])
+                    repr(prev[0])
+                    str(prev[0].opcode)
+            except Exception as e:   # noqa: BLE001
+                v.append(("display_helper_raises/%s" % name, "%s: print_cdb()/print()/repr() of a built command raised %s: %s" % (name, type(e).__name__, e)))
+            if bytes(prev[0].cdb) != prev[1]:
+                v.append(("display_helper_changes_cdb/%s" % name, "%s: print_cdb()/print()/repr() changed the command's CDB" % name))
         for k, what in v:
             acc.violation(k, what, case)
         acc.outcome((name, obs[0] if obs else None, tuple(k for k, _ in v)))
